@@ -5,13 +5,6 @@ From Verif Require Import gen.Scales gen.Banks C05.Model C05.Gabor.
 Open Scope R_scope.
 
 (** * Helpers *)
-Lemma exp_pow_n x n : exp x ^ n = exp (INR n * x).
-Proof.
-  induction n as [|n IH].
-  - simpl. rewrite Rmult_0_l, exp_0. reflexivity.
-  - rewrite S_INR. simpl pow. rewrite IH, <- exp_plus. f_equal. ring.
-Qed.
-
 Lemma fact_pos k : 0 < INR (fact k).
 Proof. apply INR_fact_lt_0. Qed.
 
